@@ -15,11 +15,12 @@ dur=$(( $(date +%s) - start ))
 det=no; [ $code -eq 1 ] && echo "$out" | grep -q "^VIOLATION property=$PROP" && det=yes
 echo "$out" | grep -E "key=" | head -4 | cut -c1-200
 echo "SEED $S detected=$det exit=$code ${dur}s"
-python3 - "$D/meta.json" "$det" "$code" "$dur" "$NOTE" <<PY
-import json,sys,re
+KEYS=$(echo "$out" | grep -a -o 'key="[^"]*"' | head -6 | LC_ALL=C tr -cd '\11\12\15\40-\176')
+KEYS="$KEYS" python3 - "$D/meta.json" "$det" "$code" "$dur" "$NOTE" <<'PY'
+import json,sys,re,os
 p,det,code,dur,note=sys.argv[1:6]
 m=json.load(open(p))
-keys=re.findall(r'key="([^"]+)"', """$out""")[:6]
+keys=re.findall(r'key="([^"]+)"', os.environ.get("KEYS",""))[:6]
 m['check'].update({"detected":det,"exit":int(code),"seconds":int(dur),"violation_keys":keys})
 if note:
     m['check']['missed_at_first']=True
